@@ -13,6 +13,11 @@ for f in sorted(glob.glob('selftest/mutants/canary_*.patch')):
     props = next((k['properties'] for k in kf if k['id']==fid), [])
     for p in props:
         cases.append((os.path.basename(f)[:-6]+'@'+p, os.path.abspath(f), p))
+# engine canaries: mutations the existing tests do catch, kept because an earlier
+# engine version proved them vacuously (name: engine_<property>_<what>.patch)
+for f in sorted(glob.glob('selftest/mutants/engine_*.patch')):
+    p = re.match(r'engine_(C\d+)_', os.path.basename(f)).group(1)
+    cases.append((os.path.basename(f)[:-6], os.path.abspath(f), p))
 for d in sorted(glob.glob('seeded/*/')):
     m = json.load(open(d+'meta.json'))
     cases.append((m['seed'], os.path.abspath(d+'patch.diff'), m['property']))
